@@ -59,6 +59,13 @@ class OutOfBounds(AnalysisBroken):
     """a store or load outside a local array of the interpreted function"""
 
 
+class CStrLit(str):
+    """a string literal (a non-NULL pointer whatever its content)"""
+    def __bool__(self):
+        return True
+    __hash__ = str.__hash__
+
+
 class UndefinedConversion(AnalysisBroken):
     """a floating value converted to an integer type that cannot represent its truncation (undefined in C++)"""
 
@@ -228,6 +235,8 @@ class Mini:
         k = e.k
         if k == 'CXXBoolLiteralExpr':
             return int(bool(e.v))
+        if k == 'StringLiteral' and isinstance(e.j.get('v'), str):
+            return CStrLit(e.j['v'])
         if k == 'CXXNullPtrLiteralExpr' or k == 'GNUNullExpr':
             return 0
         if e.cv is not None and k != 'DeclRefExpr':
@@ -301,6 +310,11 @@ class Mini:
                 pv_ = self.ev(e.child('sub'), env)
                 if isinstance(pv_, (Obj, Vector)):
                     return pv_                   # a pointer to an object is modelled by the object itself
+                if isinstance(pv_, CStrLit) and (e.ct or e.t or '').replace('const ', '').strip() in _UMASK:
+                    # an integer read from the bytes of a string literal (the byte-order probe): the host of the analysis is
+                    # little-endian, like every target the library's swap routines treat as "nothing to do" for OASIS
+                    w_ = {0xFF: 1, 0xFFFF: 2, 0xFFFFFFFF: 4}.get(_UMASK[(e.ct or e.t or '').replace('const ', '').strip()], 8)
+                    return int.from_bytes((bytes((0xFF if ord(ch_) > 0xFF else ord(ch_)) for ch_ in pv_) + b'\0' * 8)[:w_], 'little')     # (gx writes a byte that is not UTF-8 as U+FFFD)
                 return self.load(pv_)
             if op == '&':
                 t = _strip_casts(e.child('sub'))
@@ -495,6 +509,9 @@ class Mini:
         if k == 'InitListExpr' and self.obj_store and (e.t or '').replace('const ', '').replace('gdstk::', '').startswith('Array<') and \
                 all(c is None or c.k in ('ImplicitValueInitExpr', 'CXXScalarValueInitExpr') or c.cv == 0 or (c.k == 'InitListExpr' and not [y for y in c.c if y is not None]) for c in e.c):
             return Obj(capacity=0, count=0, items=0)
+        if k == 'InitListExpr' and self.obj_store and '[' not in (e.t or '') and '*' not in (e.t or '') and e.c and all(c is not None and c.k == 'ImplicitValueInitExpr' for c in e.c) \
+                and self.db.records.get((e.ct or e.t or '').replace('const ', '').strip()) is None and (e.ct or e.t or '').replace('const ', '').strip() in ('tm', 'struct tm'):
+            return Obj(tm_sec=0, tm_min=0, tm_hour=0, tm_mday=0, tm_mon=0, tm_year=0, tm_wday=0, tm_yday=0, tm_isdst=0)     # `tm now = {}`
         if k in ('CXXScalarValueInitExpr', 'ImplicitValueInitExpr') or (k == 'InitListExpr' and not [c for c in e.c if c is not None] and not _is_vec2(e.t)):
             return 0
         if k == 'LambdaExpr':
